@@ -6,38 +6,30 @@ Import ListNotations.
 Require Import Base.Wire Base.PyStr C10.Bot C10.Lemmas.
 Open Scope N_scope.
 
-(* ---- NICK and nicksToHostmasks ---- *)
+(* ---- NICK and nicksToHostmasks (repaired doNick: the old entry is deleted first) ---- *)
 Lemma doNick_n2h m b new rest x :
   m_args m = new :: rest -> nonempty (msg_user m) = true -> nonempty (msg_host m) = true -> new <> [] ->
   idict_get x (b_n2h (st_doNick m b)) =
-    if feq x (msg_nick m) then None
-    else if feq x new then Some (joinHostmask new (msg_user m) (msg_host m))
+    if feq x new then Some (joinHostmask new (msg_user m) (msg_host m))
+    else if feq x (msg_nick m) then None
     else idict_get x (b_n2h b).
 Proof.
   intros Ha Hu Hh Hn. unfold st_doNick. rewrite Ha, Hu, Hh. cbn [andb].
   destruct new as [|c new']; [contradiction|].
   cbn [set_chans set_n2h n2h_set b_n2h b_nick b_prefix b_chans].
-  rewrite idict_get_del, idict_get_set. reflexivity.
+  rewrite idict_get_set, idict_get_del. reflexivity.
 Qed.
 
-(* the clause "each visible nick's hostmask equals the server's", for the nick that changed *)
-Lemma doNick_hostmask_on_domain m b new rest :
+(* the clause "each visible nick's hostmask equals the server's", for the nick that changed: the FULL statement,
+   case-only changes included *)
+Lemma doNick_hostmask m b new rest :
   m_args m = new :: rest -> nonempty (msg_user m) = true -> nonempty (msg_host m) = true -> new <> [] ->
-  feq new (msg_nick m) = false ->
   idict_get new (b_n2h (st_doNick m b)) = Some (joinHostmask new (msg_user m) (msg_host m))
-  /\ idict_get (msg_nick m) (b_n2h (st_doNick m b)) = None.
+  /\ (feq new (msg_nick m) = false -> idict_get (msg_nick m) (b_n2h (st_doNick m b)) = None).
 Proof.
-  intros Ha Hu Hh Hn Hf. split.
-  - rewrite (doNick_n2h m b new rest new Ha Hu Hh Hn), Hf, feq_refl. reflexivity.
-  - rewrite (doNick_n2h m b new rest _ Ha Hu Hh Hn), feq_refl. reflexivity.
-Qed.
-(* ... and the defect, for EVERY state: a case-only change erases the entry *)
-Lemma doNick_caseonly_erases m b new rest :
-  m_args m = new :: rest -> nonempty (msg_user m) = true -> nonempty (msg_host m) = true -> new <> [] ->
-  feq new (msg_nick m) = true ->
-  idict_get new (b_n2h (st_doNick m b)) = None.
-Proof.
-  intros Ha Hu Hh Hn Hf. rewrite (doNick_n2h m b new rest new Ha Hu Hh Hn), Hf. reflexivity.
+  intros Ha Hu Hh Hn. split.
+  - rewrite (doNick_n2h m b new rest new Ha Hu Hh Hn), feq_refl. reflexivity.
+  - intro Hf. rewrite (doNick_n2h m b new rest _ Ha Hu Hh Hn), (feq_sym (msg_nick m) new), Hf, feq_refl. reflexivity.
 Qed.
 (* other nicks keep their entry *)
 Lemma doNick_others m b new rest x :
@@ -140,6 +132,23 @@ Proof.
   intro H. split; [|apply iset_discard_feq; exact H].
   rewrite !iset_mem_add. rewrite (feq_trans_r a a' x H). reflexivity.
 Qed.
+
+(* ---- NAMES with userhost-in-names (repaired do353): an item [prefixes]nick!user@host records nick!user@host under
+        the bare nick, in every state ---- *)
+Lemma chan_upd_n2h k f b : b_n2h (chan_upd k f b) = b_n2h b.
+Proof. reflexivity. Qed.
+Lemma names_item_hostmask ch item name user host nick b :
+  isUserHostmask item = true -> splitHostmask item = Some (name, user, host) ->
+  lstrip gen.T10.SIGILS_353 name = nick -> nick <> [] ->
+  idict_get nick (b_n2h (fst (names_loop ch [item] b))) = Some (joinHostmask nick user host).
+Proof.
+  intros Hh Hs Hl Hn. cbn [names_loop]. rewrite Hh, Hs, Hl.
+  destruct nick as [|c nick']; [contradiction|].
+  cbn [fst]. rewrite chan_upd_n2h. cbn [n2h_set set_n2h b_n2h].
+  rewrite idict_get_set, feq_refl. reflexivity.
+Qed.
+Lemma sigils_353_same : gen.T10.SIGILS_353 = gen.T10.SIGILS.
+Proof. reflexivity. Qed.
 
 (* ---- separateModes against a declarative parse of a mode string ---- *)
 Definition is_sign (c : N) : bool := N.eqb c PLUS || N.eqb c MINUS.
